@@ -18,6 +18,7 @@ META = dict(
     required_hits=["momentum_us", "number_us", "momentum_tl", "number_tl", "polarized_n1", "momentum_qed", "number_qed", "fhmruvv_mean"],
     max_inconclusive_frac=0.02,
 )
+META["level_text"] += ' The in-house N3LO variant is run inside the QED towers; number rules are also evaluated at np.complex128(1) and inside the 1e-5 neighbourhood of N=1.'
 
 V0 = (0,) * 7
 DIRS = (1.0, 1j, (1 + 1j) / np.sqrt(2))
